@@ -14,6 +14,7 @@ import FwdVerif.Lemmas.ReqExamples
 import FwdVerif.Lemmas.ReqRules
 import FwdVerif.Lemmas.ReqUpgrade
 import FwdVerif.Lemmas.ReqSeq
+import FwdVerif.Lemmas.C01Conn
 
 namespace FwdVerif
 namespace C01
@@ -906,6 +907,189 @@ theorem c01_sticky_agrees_without_nomination (es : List Event)
     | request cfg ctx r => simp [eventAlone, dropNamed_nil]
     | response fs => rfl
 
+/-! ## 14 concurrency: many client connections served at the same time
+
+  Every client connection has its own goroutine; all of them run the ONE modifier stack of the proxy
+  (one `ViaModifier`, one forwarded-header modifier, one hop-by-hop modifier, … per `HTTPProxy`).
+  A run of the process is an interleaving of the per-connection request lists, chosen by the
+  scheduler.  The statement: the interleaving does not matter — the pipeline has no shared mutable
+  state.  (`Interleaving`, `Schedule`, `runSchedule`, `scratchRun`: `Model/C01.lean`.) -/
+
+/-- whatever the schedule, every connection gets `processRequest` of its own requests, in its own
+    order: nothing of another connection's exchange shows in them -/
+theorem c01_concurrent_per_connection (st : ProcState) (s : Schedule) (c : Nat) :
+    connOutcomes c (runSchedule st s) = (connEvents c s).map eventAlone :=
+  connOutcomes_runSchedule st s c
+
+/-- **the multiset of forwarded messages of any interleaving of the per-connection sequences is the
+    union of `processRequest` of each request** -/
+theorem c01_concurrent_multiset (st : ProcState) (conns : List (List Event)) (es : List Event)
+    (h : Interleaving conns es) :
+    (runProcess st es).Perm (conns.map fun c => c.map eventAlone).flatten := by
+  rw [runProcess_eq_map, ← List.map_flatten]
+  exact h.perm.map _
+
+/-- … so two runs of the same connections under different schedules (and from different states)
+    forward the same messages -/
+theorem c01_concurrent_schedule_irrelevant (st st' : ProcState) (conns : List (List Event))
+    (es es' : List Event) (h : Interleaving conns es) (h' : Interleaving conns es') :
+    (runProcess st es).Perm (runProcess st' es') :=
+  (c01_concurrent_multiset st conns es h).trans (c01_concurrent_multiset st' conns es' h').symm
+
+/-- … and inside the run every connection's messages keep the order the client sent them in -/
+theorem c01_concurrent_order_kept (st : ProcState) (conns : List (List Event)) (es : List Event)
+    (h : Interleaving conns es) : ∀ c ∈ conns, (c.map eventAlone).Sublist (runProcess st es) := by
+  intro c hc
+  rw [runProcess_eq_map]
+  exact (h.sublist c hc).map _
+
+-- two connections, `[a₁, a₂]` and `[b₁]`: `a₁, b₁, a₂` is one of their three interleavings
+example (a₁ a₂ b₁ : Event) : Interleaving [[a₁, a₂], [b₁]] [a₁, b₁, a₂] :=
+  .take (pre := []) (post := [[b₁]]) a₁
+    (.take (pre := [[a₂]]) (post := []) b₁
+      (.take (pre := []) (post := [[]]) a₂ (.done (by simp))))
+
+/-- connection 0 is handling `GET /a` that came through `alpha` -/
+def exReqViaA : Request where
+  method := bs "GET"
+  minor := 1
+  target := .origin
+  path := bs "/a"
+  query := none
+  fields := [(bs "Host", bs "origin.test"), (bs "Via", bs "1.0 alpha (edge A)"), (bs "X-Client", bs "A")]
+
+/-- connection 1 is handling `GET /b` that came through `beta-one` and `beta-two` -/
+def exReqViaB : Request where
+  method := bs "GET"
+  minor := 1
+  target := .origin
+  path := bs "/b"
+  query := none
+  fields := [(bs "Host", bs "origin.test"), (bs "X-Client", bs "B"), (bs "Via", bs "1.1 beta-one"),
+    (bs "via", bs "1.1 beta-two")]
+
+def exInFlight : Nat → Cfg × Ctx × Request
+  | 0 => (exCfg, exCtx, exReqViaA)
+  | _ => (exCfg, exCtx, exReqViaB)
+
+/-- the Via value and the `X-Client` values a hop is sent -/
+def viaSeen : Outcome → List Bytes × List Bytes
+  | .forwarded _ out => (outValues out (bs "via"), outValues out (bs "x-client"))
+  | _ => ([], [])
+
+/-- The counter-model the concurrency theorems exclude: a pipeline that assembles the Via value in
+    ONE scratch buffer kept on the shared modifier (`scratchRun`).  One request at a time it is
+    `processRequest`; when connection 1's goroutine assembles between connection 0's two steps,
+    connection 0's request is forwarded with connection 1's chain — a request that carries another
+    exchange's data.  Requests without a Via line all assemble the same bytes: there the sharing
+    never shows. -/
+theorem c01_shared_scratch_witness :
+    ((scratchRun exInFlight [] [.assemble 0, .publish 0, .assemble 1, .publish 1]).map
+        (fun p => (p.1, viaSeen p.2)) =
+      [(0, viaSeen (processRequest exCfg exCtx exReqViaA)),
+       (1, viaSeen (processRequest exCfg exCtx exReqViaB))]) ∧
+    viaSeen (processRequest exCfg exCtx exReqViaA) =
+      ([bs "1.0 alpha (edge A), 1.1 fwd-0123456789abcdef0123"], [bs "A"]) ∧
+    viaSeen (processRequest exCfg exCtx exReqViaB) =
+      ([bs "1.1 beta-one, 1.1 beta-two, 1.1 fwd-0123456789abcdef0123"], [bs "B"]) ∧
+    ((scratchRun exInFlight [] [.assemble 0, .assemble 1, .publish 0, .publish 1]).map
+        (fun p => (p.1, viaSeen p.2)) =
+      [(0, ([bs "1.1 beta-one, 1.1 beta-two, 1.1 fwd-0123456789abcdef0123"], [bs "A"])),
+       (1, ([bs "1.1 beta-one, 1.1 beta-two, 1.1 fwd-0123456789abcdef0123"], [bs "B"]))]) ∧
+    -- without Via lines the two schedules cannot be told apart
+    ((scratchRun (fun _ => (exCfg, exCtx, exReqCarries)) [] [.assemble 0, .assemble 1, .publish 0, .publish 1]).map
+        (fun p => viaSeen p.2) =
+      (scratchRun (fun _ => (exCfg, exCtx, exReqCarries)) [] [.assemble 0, .publish 0, .assemble 1, .publish 1]).map
+        (fun p => viaSeen p.2)) := by
+  refine ⟨?_, ?_, ?_, ?_, ?_⟩ <;> decide +kernel
+
+-- in the model the same two requests under the schedule "0, 1" and "1, 0": each connection gets its own
+example :
+    connOutcomes 0 (runSchedule {} [(1, .request exCfg exCtx exReqViaB), (0, .request exCfg exCtx exReqViaA)]) =
+      [some (processRequest exCfg exCtx exReqViaA)] :=
+  c01_concurrent_per_connection {} _ 0
+
+/-! ## 15 one connection's byte stream: requests the proxy answers itself
+
+  `Model/ReqConn.lean` reads the bytes of a client connection (request heads, request framing, bodies);
+  here its decision function is the pipeline itself (`pipeDecide`: answered locally iff
+  `processRequest` does not forward).  A request the proxy refuses (407, 403, 451, 400) occupies the
+  bytes of its body like any other; what follows is the next request.  (`serveConn`, `hopReceives`,
+  `hopOf`, `ofHead`: `Model/C01.lean`.) -/
+
+/-- the full statement for a connection loop with drain policy `m`: **every message the next hop is
+    sent is `processRequest` of a request the client framed, with the body the client framed for it,
+    in the client's order** — nothing built from body bytes reaches a hop -/
+def c01_conn_full (m : ReqConn.Drain) : Prop :=
+  ∀ (cfg : Cfg) (ctx : Ctx) (oc : ReqConn.ReqHead → Bool) (inp : Bytes),
+    (hopReceives m cfg ctx oc inp).Sublist ((ReqConn.frames inp).1.map (hopOf cfg ctx))
+
+/-- exactly: the hop is sent the framed requests the pipeline forwards, up to the response that
+    closes the connection -/
+theorem c01_conn_hop_receives_exact (cfg : Cfg) (ctx : Ctx) (oc : ReqConn.ReqHead → Bool) (inp : Bytes) :
+    hopReceives .always cfg ctx oc inp =
+      (((ReqConn.frames inp).1.take (serveConn .always cfg ctx oc inp).1.length).filter
+        fun i => isFwd (processRequest cfg ctx (ofHead i.head))).map (hopOf cfg ctx) := by
+  unfold hopReceives
+  rw [forwarded_eq_filter cfg ctx oc _ (serveConn_disp cfg ctx oc inp), serveConn_items]
+
+/-- the loop of `proxyConn.handle` (body closed — drained — on every way out) satisfies it -/
+theorem c01_conn_hop_receives_framed : c01_conn_full .always := by
+  intro cfg ctx oc inp
+  rw [c01_conn_hop_receives_exact]
+  exact (List.filter_sublist.trans (List.take_sublist _ _)).map _
+
+/-- every message a hop is sent is one the pipeline forwards (a refused request never reaches it) -/
+theorem c01_conn_received_is_forwarded (cfg : Cfg) (ctx : Ctx) (oc : ReqConn.ReqHead → Bool) (inp : Bytes) :
+    ∀ m ∈ hopReceives .always cfg ctx oc inp, isFwd m.outcome = true := by
+  rw [c01_conn_hop_receives_exact]
+  intro m hm
+  obtain ⟨i, hi, rfl⟩ := List.mem_map.mp hm
+  exact (List.mem_filter.mp hi).2
+
+/-- on a connection nothing closes, with every body complete, the hop is sent ALL framed requests
+    the pipeline forwards — whatever the refused ones in between carried as bodies -/
+theorem c01_conn_all_forwarded_delivered (cfg : Cfg) (ctx : Ctx) (oc : ReqConn.ReqHead → Bool) (inp : Bytes)
+    (hc : ∀ h, (pipeDecide cfg ctx oc h).close = false) (hb : ∀ i ∈ (ReqConn.frames inp).1, i.body ≠ none) :
+    hopReceives .always cfg ctx oc inp =
+      ((ReqConn.frames inp).1.filter fun i => isFwd (processRequest cfg ctx (ofHead i.head))).map (hopOf cfg ctx) := by
+  unfold hopReceives
+  rw [forwarded_eq_filter cfg ctx oc _ (serveConn_disp cfg ctx oc inp), serveConn_always,
+    (ReqConn.cut_no_close _ hc _ _ hb).1]
+
+/-- proxy basic auth `gate:keeper` -/
+def exCfgGate : Cfg := { exCfg with basicAuth := some (bs "gate", bs "keeper") }
+
+/-- `POST /upload` without credentials and a 4-byte body `ping`, then `POST /next` with credentials
+    and the body `hi` -/
+def exStreamRefusedBody : Bytes :=
+  bs "POST /upload HTTP/1.1\r\nhost: origin.test\r\ncontent-length: 4\r\n\r\nping" ++
+  bs "POST /next HTTP/1.1\r\nhost: origin.test\r\nproxy-authorization: Basic Z2F0ZTprZWVwZXI=\r\ncontent-length: 2\r\n\r\nhi"
+
+-- with the drain: 407 to the first, the hop is sent `POST /next` with its 2 bytes
+example :
+    ((serveConn .always exCfgGate exCtx (fun _ => false) exStreamRefusedBody).1.map
+      (fun a => (a.head.method, a.disp.refused)) = [(bs "POST", some 407), (bs "POST", none)]) ∧
+    ((hopReceives .always exCfgGate exCtx (fun _ => false) exStreamRefusedBody).map HopMsg.summary =
+      [(bs "POST", bs "/next", some 2)]) ∧
+    (∀ h, (pipeDecide exCfgGate exCtx (fun _ => false) h).close = false → True) := by
+  refine ⟨?_, ?_, fun _ _ => trivial⟩ <;> decide +kernel
+
+/-- without it (`Drain.forwardedOnly`: the body of a locally answered request stays on the
+    connection) the statement is FALSE: the four body bytes are read as the start of the next request
+    line and the hop is sent a `pingPOST /next`, which the client never sent -/
+theorem c01_conn_undrained_witness : ¬ c01_conn_full .forwardedOnly := by
+  intro h
+  have := (h exCfgGate exCtx (fun _ => false) exStreamRefusedBody).map HopMsg.summary
+  revert this
+  decide +kernel
+
+example :
+    (hopReceives .forwardedOnly exCfgGate exCtx (fun _ => false) exStreamRefusedBody).map HopMsg.summary =
+      [(bs "pingPOST", bs "/next", some 2)] ∧
+    ((ReqConn.frames exStreamRefusedBody).1.map (hopOf exCfgGate exCtx)).map HopMsg.summary =
+      [([], [], none), (bs "POST", bs "/next", some 2)] := by decide +kernel
+
 /-
   What is not proved here.
   * Clauses 3 and 5b–9 (Host, Connection/Upgrade, User-Agent, Via, X-Forwarded-*, Accept-Encoding)
@@ -922,6 +1106,10 @@ theorem c01_sticky_agrees_without_nomination (es : List Event)
     for `runProcess` (§13): the model HAS no state the pipeline reads, the history theorems say so
     in the form the correspondence runs compare (`REQ sequence`: whole histories against the real
     process), and `c01_sticky_witness` shows a process that does keep such state is told apart.
+    §15 puts the pipeline behind the byte stream of one connection (`Model/ReqConn.lean`'s reader);
+    §14 states concurrency as interleavings of per-connection lists over the same stateless step —
+    goroutines, the Go memory model and data races are not modelled: the CROSS-TALK runs observe them,
+    `c01_shared_scratch_witness` shows the kind of sharing they would expose.
   * Names that are not RFC 7230 tokens are excluded by `n.all isTokenByte`; `c01_wf_names_are_tokens`
     shows a request Go accepts (`WFReq`) has no values under such a name, the matching statement
     for `outValues` is not proved.
